@@ -122,7 +122,7 @@ func fconstSMT(t *Term) string {
 }
 
 var opFP = map[string]string{
-	"fadd": "fp.add RNE", "fsub": "fp.sub RNE", "fmul": "fp.mul RNE", "fdiv": "fp.div RNE", "fneg": "fp.neg",
+	"fadd": "fp.add RNE", "fsub": "fp.sub RNE", "fmul": "fp.mul RNE", "fdiv": "fp.div RNE", "fneg": "fp.neg", "fsqrt": "fp.sqrt RNE", "fisneg": "fp.isNegative",
 	"feq": "fp.eq", "flt": "fp.lt", "fle": "fp.leq",
 	"i2f": "(_ to_fp 11 53) RNE", "f2i": "(_ fp.to_sbv 64) RTZ",
 }
